@@ -1,10 +1,304 @@
 /-
-  Model module `Gc` (driver op `gcscript`). Import-free apart from RsjModel.* modules.
+  Model of `rsjsonnet-lang/src/gc/mod.rs` (`GcContext`, `Gc`, `GcView`) and of the
+  scripted-heap driver `gc/verif.rs` (driver op `gcscript`).
+
+  A heap object is the `GcBox` of the Rust code seen from the collector:
+    * `edges`  – the `Gc<_>` handles stored *inside* the object's value, in the order its
+                 `GcTrace::trace` visits them (with multiplicity),
+    * `views`  – number of `GcView`s (strong `Rc`s) held outside `objs`, so that
+                 `Rc::strong_count(obj) > 1  ↔  views > 0`,
+    * `ext`    – number of `Gc` handles (weak `Rc`s) held outside the heap,
+    * `visits`, `mark` – the two `Cell`s of `GcBox`.
+  `Rc::weak_count(obj) = ext + (number of edges pointing to obj from objects whose value has
+  not been dropped)`; an object whose `Rc` was removed from `objs` has its value dropped
+  (which releases its out-edges), so "not dropped" = "still in the list".
+  The list order is the order of `GcContextInner::objs`.
 -/
 import RsjModel.Util
 namespace Rsj.Gc
 
-/-- `gcscript <args...>` : one canonical answer line, or `none` for a malformed request. -/
-def handle (_args : List String) : Option String := none
+structure Obj where
+  id : Nat
+  edges : List Nat
+  views : Nat
+  ext : Nat
+  visits : Nat
+  mark : Bool
+deriving Repr, DecidableEq
+
+abbrev Heap := List Obj
+
+/-- `Weak::upgrade` of a handle with target id `j`: the object if its value is still alive. -/
+def find (H : Heap) (j : Nat) : Option Obj := H.find? (fun o => o.id == j)
+
+/-- Number of in-heap handles pointing to `j`. -/
+def inDeg : Heap → Nat → Nat
+  | [], _ => 0
+  | o :: H, j => o.edges.count j + inDeg H j
+
+/-- `Rc::weak_count(obj)` -/
+def weakCount (H : Heap) (o : Obj) : Nat := o.ext + inDeg H o.id
+
+/-! ### Mark propagation (`GcMarkCtx`) -/
+
+/-- `GcMarkCtx::visit_obj` for every handle of a traced value, in order.
+    `ok t` = the handle upgrades and the target's `mark` was false before this
+    propagation started; `newly` = ids whose mark was set during this propagation;
+    `stack` = `GcMarkCtx::queue` (head = last pushed). -/
+def visitEdges (ok : Nat → Bool) : List Nat → List Nat → List Nat → List Nat × List Nat
+  | [], newly, stack => (newly, stack)
+  | t :: ts, newly, stack =>
+    if ok t && !newly.contains t then visitEdges ok ts (t :: newly) (t :: stack)
+    else visitEdges ok ts newly stack
+
+/-- `while let Some(sub_obj) = mark_ctx.queue.pop() { sub_obj.value.trace_mark(..) }`.
+    Fuel: every pop is of a distinct object that was unmarked before, see
+    `RsjProofs.GcMark.markLoop_closed` (fuel `≥ #unmarked + |stack|` is enough). -/
+def markLoop (succ : Nat → List Nat) (ok : Nat → Bool) : Nat → List Nat → List Nat → List Nat
+  | 0, newly, _ => newly
+  | _ + 1, newly, [] => newly
+  | n + 1, newly, x :: stack =>
+    let r := visitEdges ok (succ x) newly stack
+    markLoop succ ok n r.1 r.2
+
+def isUnmarked (H : Heap) (t : Nat) : Bool :=
+  match find H t with
+  | some o => !o.mark
+  | none => false
+
+def edgesOf (H : Heap) (x : Nat) : List Nat :=
+  match find H x with
+  | some o => o.edges
+  | none => []
+
+/-- `obj.mark.set(true); obj.value.trace_mark(ctx); while pop ...` for the (unmarked)
+    object `x`: the ids that get their mark set. -/
+def markFrom (H : Heap) (x : Nat) : List Nat :=
+  markLoop (edgesOf H) (isUnmarked H) H.length [x] [x]
+
+def markObj (ms : List Nat) (o : Obj) : Obj :=
+  if ms.contains o.id then { o with mark := true } else o
+
+def setMarks (ms : List Nat) (H : Heap) : Heap := H.map (markObj ms)
+
+/-- `GcCountCtx::visit_obj` for every handle in `ts`, seen from object `o`. -/
+def bumpObj (ts : List Nat) (o : Obj) : Obj := { o with visits := o.visits + ts.count o.id }
+
+def bump (ts : List Nat) (H : Heap) : Heap := H.map (bumpObj ts)
+
+/-- `Vec::swap_remove(i)` where `objs[i..] = cur :: rest`: the last element takes the
+    place of `cur`. -/
+def rotate (rest : List Obj) : List Obj :=
+  match rest.reverse with
+  | [] => []
+  | l :: r => l :: r.reverse
+
+/-! ### The three phases of `GcContext::gc` -/
+
+/-- Phase "Count". `done = objs[..i]`, `todo = objs[i..]`, `known = known_with_view`.
+    Fuel = `todo.length` (each iteration shortens `todo`). -/
+def phase1 : Nat → List Obj → List Obj → Nat → List Obj
+  | 0, done, todo, _ => done ++ todo
+  | _ + 1, done, [], _ => done
+  | n + 1, done, cur :: rest, known =>
+    if cur.views > 0 then
+      -- at least one `GcView`: mark directly
+      let ms := if cur.mark then [] else markFrom (done ++ cur :: rest) cur.id
+      let done1 := setMarks ms done
+      let cur1 := markObj ms cur
+      let rest1 := setMarks ms rest
+      -- `if i > known_with_view { objs.swap(i, known_with_view); known_with_view += 1 }`
+      match done1[known]? with
+      | some old => phase1 n (done1.set known cur1 ++ [old]) rest1 (known + 1)
+      | none => phase1 n (done1 ++ [cur1]) rest1 known
+    else if weakCount (done ++ cur :: rest) cur = 0 then
+      -- no `Gc`, no `GcView`: destroyed directly (its value is dropped: out-edges released)
+      phase1 n done (rotate rest) known
+    else if !cur.mark then
+      -- at least one `Gc`: count
+      phase1 n (bump cur.edges done ++ [bumpObj cur.edges cur]) (bump cur.edges rest) known
+    else
+      phase1 n (done ++ [cur]) rest known
+
+/-- Phase "Mark": `for obj in objs.iter()` (the order and the ids do not change during
+    the loop, so the objects are addressed by id). -/
+def phase2 : List Nat → Heap → Heap
+  | [], H => H
+  | j :: js, H =>
+    match find H j with
+    | some o =>
+      if !o.mark && weakCount H o > o.visits then phase2 js (setMarks (markFrom H j) H)
+      else phase2 js H
+    | none => phase2 js H
+
+def resetObj (o : Obj) : Obj := { o with visits := 0, mark := false }
+
+/-- Phase "Sweep". -/
+def sweep : Nat → List Obj → List Obj → List Obj
+  | 0, done, todo => done ++ todo
+  | _ + 1, done, [] => done
+  | n + 1, done, cur :: rest =>
+    if cur.mark then sweep n (done ++ [resetObj cur]) rest
+    else sweep n done (rotate rest)
+
+/-- `GcContext::gc` -/
+def collect (H : Heap) : Heap :=
+  let H1 := phase1 H.length [] H 0
+  let H2 := phase2 (H1.map (·.id)) H1
+  sweep H2.length [] H2
+
+/-! ### Scripted-heap driver (`gc/verif.rs::run_script`) -/
+
+/-- What the driver holds for node `i` (`Held`): numbers of `Gc` handles and `GcView`s. -/
+structure Held where
+  handles : Nat
+  views : Nat
+deriving Repr, DecidableEq
+
+structure St where
+  heap : Heap
+  held : List Held
+deriving Repr
+
+inductive Op where
+  | alloc | allocView
+  | handle (i : Option Nat) | view (i : Option Nat)
+  | dropHandle (i : Option Nat) | dropView (i : Option Nat)
+  | edge (i j : Option Nat) | delEdge (i j : Option Nat)
+  | gc | bad
+deriving Repr
+
+def updObj (H : Heap) (i : Nat) (f : Obj → Obj) : Heap :=
+  H.map (fun o => if o.id == i then f o else o)
+
+def updHeld (hs : List Held) (i : Nat) (f : Held → Held) : List Held :=
+  match hs[i]? with
+  | some h => hs.set i (f h)
+  | none => hs
+
+/-- `arg(k)`: a parsed index that is `< held.len()`. -/
+def St.arg (s : St) (a : Option Nat) : Option Nat :=
+  match a with
+  | some i => if i < s.held.length then some i else none
+  | none => none
+
+/-- `held[i].gc_handle().is_some()` -/
+def St.canReach (s : St) (i : Nat) : Bool :=
+  match s.held[i]? with
+  | some h => h.handles > 0 || h.views > 0
+  | none => false
+
+def sortedLive (s : St) : List Nat :=
+  (List.range s.held.length).filter (fun i => (find s.heap i).isSome)
+
+/-- One driver operation. `none` = the Rust driver panics with
+    "attempted to access destroyed object" (`Gc::view` on a reclaimed object). -/
+def St.step (s : St) : Op → Option (St × String)
+  | .alloc =>
+    let id := s.held.length
+    some ({ heap := s.heap ++ [{ id, edges := [], views := 0, ext := 1, visits := 0, mark := false }],
+            held := s.held ++ [{ handles := 1, views := 0 }] }, s!"n{id}")
+  | .allocView =>
+    let id := s.held.length
+    some ({ heap := s.heap ++ [{ id, edges := [], views := 1, ext := 0, visits := 0, mark := false }],
+            held := s.held ++ [{ handles := 0, views := 1 }] }, s!"n{id}")
+  | .handle a =>
+    match s.arg a with
+    | some i =>
+      if s.canReach i then
+        some ({ heap := updObj s.heap i (fun o => { o with ext := o.ext + 1 }),
+                held := updHeld s.held i (fun h => { h with handles := h.handles + 1 }) }, "ok")
+      else some (s, "skip")
+    | none => some (s, "skip")
+  | .view a =>
+    match s.arg a with
+    | some i =>
+      if s.canReach i then
+        match find s.heap i with
+        | some _ =>
+          some ({ heap := updObj s.heap i (fun o => { o with views := o.views + 1 }),
+                  held := updHeld s.held i (fun h => { h with views := h.views + 1 }) }, "ok")
+        | none => none
+      else some (s, "skip")
+    | none => some (s, "skip")
+  | .dropHandle a =>
+    match s.arg a with
+    | some i =>
+      match s.held[i]? with
+      | some h =>
+        if h.handles > 0 then
+          some ({ heap := updObj s.heap i (fun o => { o with ext := o.ext - 1 }),
+                  held := updHeld s.held i (fun h => { h with handles := h.handles - 1 }) }, "ok")
+        else some (s, "skip")
+      | none => some (s, "skip")
+    | none => some (s, "skip")
+  | .dropView a =>
+    match s.arg a with
+    | some i =>
+      match s.held[i]? with
+      | some h =>
+        if h.views > 0 then
+          some ({ heap := updObj s.heap i (fun o => { o with views := o.views - 1 }),
+                  held := updHeld s.held i (fun h => { h with views := h.views - 1 }) }, "ok")
+        else some (s, "skip")
+      | none => some (s, "skip")
+    | none => some (s, "skip")
+  | .edge a b =>
+    match s.arg a, s.arg b with
+    | some i, some j =>
+      if s.canReach i && s.canReach j then
+        match find s.heap i with
+        | some _ => some ({ s with heap := updObj s.heap i (fun o => { o with edges := o.edges ++ [j] }) }, "ok")
+        | none => none
+      else some (s, "skip")
+    | _, _ => some (s, "skip")
+  | .delEdge a b =>
+    match s.arg a, s.arg b with
+    | some i, some j =>
+      if s.canReach i then
+        match find s.heap i with
+        | some o =>
+          if o.edges.contains j then
+            some ({ s with heap := updObj s.heap i (fun o => { o with edges := o.edges.erase j }) }, "ok")
+          else some (s, "skip")
+        | none => none
+      else some (s, "skip")
+    | _, _ => some (s, "skip")
+  | .gc =>
+    let s' : St := { s with heap := collect s.heap }
+    some (s', s!"live[{",".intercalate ((sortedLive s').map toString)}]#{s'.heap.length}")
+  | .bad => some (s, "bad")
+
+/-- `drop(held); ctx.gc(); num_objects()` -/
+def St.finish (s : St) : Nat :=
+  (collect (s.heap.map (fun o => { o with ext := 0, views := 0 }))).length
+
+def runScript : List Op → St → List String → Option (List String)
+  | [], s, out => some (("end#" ++ toString s.finish) :: out).reverse
+  | op :: ops, s, out =>
+    match s.step op with
+    | some (s', r) => runScript ops s' (r :: out)
+    | none => none
+
+def parseOp (t : String) : Op :=
+  let parts := t.splitOn ":"
+  let a (k : Nat) : Option Nat := parts[k]? >>= String.toNat?
+  match parts.head? with
+  | some "a" => .alloc
+  | some "av" => .allocView
+  | some "h" => .handle (a 1)
+  | some "v" => .view (a 1)
+  | some "dh" => .dropHandle (a 1)
+  | some "dv" => .dropView (a 1)
+  | some "e" => .edge (a 1) (a 2)
+  | some "d" => .delEdge (a 1) (a 2)
+  | some "gc" => .gc
+  | _ => .bad
+
+/-- `gcscript <op> <op> ...` -/
+def handle (args : List String) : Option String :=
+  match runScript (args.map parseOp) { heap := [], held := [] } [] with
+  | some out => some (";".intercalate out)
+  | none => some "panic destroyed"
 
 end Rsj.Gc
